@@ -405,3 +405,267 @@ Proof.
     unfold sparse_abs, sparse_index. rewrite Hin. reflexivity.
   - intros teqb Hok s Hwf. split; [apply sparse_ndk_nodup; exact Hwf|]. intro k. apply sparse_ndk_spec; assumption.
 Qed.
+
+(** ** [get_fixed_point] over any two containers that implement the same map *)
+Definition ops_lawful {M : Type} (ops : map_ops M) : Prop :=
+  forall m k v k', mo_get ops (mo_set ops m k v) k' = if k =? k' then v else mo_get ops m k'.
+
+Definition ops_rel {M1 M2 : Type} (o1 : map_ops M1) (o2 : map_ops M2) (m1 : M1) (m2 : M2) : Prop :=
+  forall k, mo_get o1 m1 k = mo_get o2 m2 k.
+
+Definition gfp_res_rel {M1 M2 : Type} (o1 : map_ops M1) (o2 : map_ops M2) (r1 : gfp_res M1) (r2 : gfp_res M2) : Prop :=
+  match r1, r2 with
+  | GfpSome m1 v1, GfpSome m2 v2 => v1 = v2 /\ ops_rel o1 o2 m1 m2
+  | GfpNone m1, GfpNone m2 => ops_rel o1 o2 m1 m2
+  | GfpFuel, GfpFuel => True
+  | _, _ => False
+  end.
+
+(** the specification-level container: the map itself *)
+Definition fun_ops : map_ops (fmap (option N)) := {| mo_get := fun m k => m k; mo_set := fun m k v => fm_set m k v |}.
+
+Lemma fun_ops_lawful : ops_lawful fun_ops.
+Proof. intros m k v k'. reflexivity. Qed.
+
+Lemma dense_ops_lawful : ops_lawful dense_ops.
+Proof. intros m k v k'. apply dense_get_set. Qed.
+
+Lemma sparse_ops_lawful : ops_lawful sparse_ops.
+Proof. intros m k v k'. apply sparse_get_set. Qed.
+
+Lemma ops_rel_set : forall (M1 M2 : Type) (o1 : map_ops M1) (o2 : map_ops M2) m1 m2 k v,
+  ops_lawful o1 -> ops_lawful o2 -> ops_rel o1 o2 m1 m2 -> ops_rel o1 o2 (mo_set o1 m1 k v) (mo_set o2 m2 k v).
+Proof. intros M1 M2 o1 o2 m1 m2 k v L1 L2 R k'. rewrite L1, L2, R. reflexivity. Qed.
+
+Lemma gfp_chase_sim : forall (M1 M2 : Type) (o1 : map_ops M1) (o2 : map_ops M2) fuel m1 m2 v,
+  ops_rel o1 o2 m1 m2 -> gfp_chase o1 fuel m1 v = gfp_chase o2 fuel m2 v.
+Proof.
+  intros M1 M2 o1 o2 fuel m1 m2. induction fuel as [|f IH]; intros v R; cbn [gfp_chase]; [reflexivity|].
+  rewrite (R v). destruct (mo_get o2 m2 v) as [v'|]; [|reflexivity].
+  destruct (v =? v'); [reflexivity|]. apply IH. exact R.
+Qed.
+
+Lemma gfp_update_sim : forall (M1 M2 : Type) (o1 : map_ops M1) (o2 : map_ops M2),
+  ops_lawful o1 -> ops_lawful o2 ->
+  forall fuel m1 m2 v fin, ops_rel o1 o2 m1 m2 ->
+  gfp_res_rel o1 o2 (gfp_update o1 fuel m1 v fin) (gfp_update o2 fuel m2 v fin).
+Proof.
+  intros M1 M2 o1 o2 L1 L2 fuel. induction fuel as [|f IH]; intros m1 m2 v fin R; cbn [gfp_update]; [exact I|].
+  destruct (v =? fin); [split; [reflexivity|exact R]|].
+  rewrite (R v). destruct (mo_get o2 m2 v) as [next|]; [|exact R].
+  apply IH. apply ops_rel_set; assumption.
+Qed.
+
+Theorem get_fixed_point_sim : forall (M1 M2 : Type) (o1 : map_ops M1) (o2 : map_ops M2),
+  ops_lawful o1 -> ops_lawful o2 ->
+  forall fuel m1 m2 key, ops_rel o1 o2 m1 m2 ->
+  gfp_res_rel o1 o2 (get_fixed_point o1 fuel m1 key) (get_fixed_point o2 fuel m2 key).
+Proof.
+  intros M1 M2 o1 o2 L1 L2 fuel m1 m2 key R. unfold get_fixed_point.
+  rewrite (R key). destruct (mo_get o2 m2 key) as [v0|]; [|exact R].
+  destruct (key =? v0); [split; [reflexivity|exact R]|].
+  rewrite (gfp_chase_sim M1 M2 o1 o2 fuel m1 m2 key R).
+  destruct (gfp_chase o2 fuel m2 key) as [[fin|]|]; [|exact R|exact I].
+  apply gfp_update_sim; assumption.
+Qed.
+
+(** more fuel does not change an answer *)
+Lemma gfp_chase_mono : forall (M : Type) (o : map_ops M) f m v r,
+  gfp_chase o f m v = Some r -> forall f', (f <= f')%nat -> gfp_chase o f' m v = Some r.
+Proof.
+  intros M o f. induction f as [|f IH]; intros m v r H f' Hle; cbn [gfp_chase] in H; [discriminate|].
+  destruct f' as [|f']; [lia|]. cbn [gfp_chase].
+  destruct (mo_get o m v) as [v'|]; [|exact H]. destruct (v =? v'); [exact H|].
+  apply IH; [exact H|lia].
+Qed.
+
+Lemma gfp_update_mono : forall (M : Type) (o : map_ops M) f m v fin,
+  gfp_update o f m v fin <> GfpFuel -> forall f', (f <= f')%nat -> gfp_update o f' m v fin = gfp_update o f m v fin.
+Proof.
+  intros M o f. induction f as [|f IH]; intros m v fin H f' Hle; cbn [gfp_update] in H; [contradiction|].
+  destruct f' as [|f']; [lia|]. cbn [gfp_update].
+  destruct (v =? fin); [reflexivity|]. destruct (mo_get o m v) as [next|]; [|reflexivity].
+  apply IH; [exact H|lia].
+Qed.
+
+Theorem get_fixed_point_mono : forall (M : Type) (o : map_ops M) f m key,
+  get_fixed_point o f m key <> GfpFuel -> forall f', (f <= f')%nat -> get_fixed_point o f' m key = get_fixed_point o f m key.
+Proof.
+  intros M o f m key H f' Hle. unfold get_fixed_point in *.
+  destruct (mo_get o m key) as [v0|]; [|reflexivity]. destruct (key =? v0); [reflexivity|].
+  destruct (gfp_chase o f m key) as [r|] eqn:C; [|contradiction].
+  rewrite (gfp_chase_mono M o f m key r C f' Hle). destruct r as [fin|]; [|reflexivity].
+  apply gfp_update_mono; assumption.
+Qed.
+
+(** the two containers of meta.rs, holding the same map, give the same answer and hold the same map afterwards *)
+Theorem get_fixed_point_dense_sparse : forall fuel (d : dense (option N)) (s : sparse (option N)) key,
+  fm_eq (dense_abs None d) (sparse_abs None s) ->
+  match get_fixed_point dense_ops fuel d key, get_fixed_point sparse_ops fuel s key with
+  | GfpSome d' v1, GfpSome s' v2 => v1 = v2 /\ fm_eq (dense_abs None d') (sparse_abs None s')
+  | GfpNone d', GfpNone s' => fm_eq (dense_abs None d') (sparse_abs None s')
+  | GfpFuel, GfpFuel => True
+  | _, _ => False
+  end.
+Proof.
+  intros fuel d s key R.
+  exact (get_fixed_point_sim _ _ dense_ops sparse_ops dense_ops_lawful sparse_ops_lawful fuel d s key R).
+Qed.
+
+(** ... and both compute [get_fixed_point] of the specification-level map *)
+Theorem get_fixed_point_dense_refines : forall fuel (d : dense (option N)) key,
+  gfp_res_rel dense_ops fun_ops (get_fixed_point dense_ops fuel d key) (get_fixed_point fun_ops fuel (dense_abs None d) key).
+Proof.
+  intros fuel d key. apply get_fixed_point_sim; [exact dense_ops_lawful|exact fun_ops_lawful|]. intro k. reflexivity.
+Qed.
+
+Theorem get_fixed_point_sparse_refines : forall fuel (s : sparse (option N)) key,
+  gfp_res_rel sparse_ops fun_ops (get_fixed_point sparse_ops fuel s key) (get_fixed_point fun_ops fuel (sparse_abs None s) key).
+Proof.
+  intros fuel s key. apply get_fixed_point_sim; [exact sparse_ops_lawful|exact fun_ops_lawful|]. intro k. reflexivity.
+Qed.
+
+(** ** DenseExprSet refines [fset] *)
+Lemma bit_is_set_testbit : forall w b, bit_is_set w b = N.testbit w b.
+Proof.
+  intros w b. unfold bit_is_set. change 1 with (N.ones 1) at 1. rewrite N.land_ones.
+  change (2 ^ 1) with 2. rewrite <- N.bit0_eqb. rewrite N.shiftr_spec'. reflexivity.
+Qed.
+
+Lemma one_shl_testbit : forall b j, N.testbit (N.shiftl 1 b) j = (b =? j).
+Proof. intros b j. rewrite N.shiftl_1_l. apply N.pow2_bits_eqb. Qed.
+
+Lemma not_one_shl_testbit : forall b j, j < word_bits -> N.testbit (not_one_shl b) j = negb (b =? j).
+Proof.
+  intros b j H. unfold not_one_shl, N.lnot. rewrite N.lxor_spec, one_shl_testbit.
+  rewrite N.ones_spec_low by exact H. destruct (b =? j); reflexivity.
+Qed.
+
+Lemma word_bit_split : forall k k', ((k / word_bits =? k' / word_bits) && (k mod word_bits =? k' mod word_bits)) = (k =? k').
+Proof.
+  intros k k'. unfold word_bits.
+  pose proof (N.div_mod k 64 ltac:(lia)) as H1. pose proof (N.div_mod k' 64 ltac:(lia)) as H2.
+  destruct (N.eqb_spec (k / 64) (k' / 64)) as [E1|E1]; destruct (N.eqb_spec (k mod 64) (k' mod 64)) as [E2|E2];
+    destruct (N.eqb_spec k k') as [E|E]; cbn; try reflexivity; try lia; subst; congruence.
+Qed.
+
+Lemma mod_word_lt : forall k, k mod word_bits < word_bits.
+Proof. intro k. apply N.mod_lt. unfold word_bits. lia. Qed.
+
+Definition dense_bits_abs (s : dense_bits) : fset := fun k => dense_bits_contains s k.
+
+Lemma dense_bits_contains_testbit : forall s k,
+  dense_bits_contains s k = N.testbit (nth_N s (k / word_bits) 0) (k mod word_bits).
+Proof. intros s k. unfold dense_bits_contains, index_to_word_and_bit. apply bit_is_set_testbit. Qed.
+
+Lemma dense_bits_contains_empty : forall k, dense_bits_contains dense_bits_empty k = false.
+Proof. intro k. rewrite dense_bits_contains_testbit. cbn [dense_bits_empty nth_N]. apply N.bits_0. Qed.
+
+Lemma dense_bits_insert_spec : forall s k,
+  snd (dense_bits_insert s k) = negb (dense_bits_contains s k) /\
+  forall k', dense_bits_contains (fst (dense_bits_insert s k)) k' = (k =? k') || dense_bits_contains s k'.
+Proof.
+  intros s k. unfold dense_bits_insert, index_to_word_and_bit.
+  set (w := k / word_bits). set (b := k mod word_bits).
+  set (s1 := if len_N s <=? w then vec_resize s (w + 1) 0 else s).
+  assert (forall i, nth_N s1 i 0 = nth_N s i 0) as Hs1.
+  { intro i. unfold s1. destruct (N.leb_spec (len_N s) w) as [H|H]; [|reflexivity].
+    rewrite vec_resize_grow by lia. apply nth_N_app_repeat. }
+  assert (w < len_N s1) as Hlen.
+  { unfold s1. destruct (N.leb_spec (len_N s) w) as [H|H]; [|exact H]. rewrite vec_resize_length. lia. }
+  cbn [fst snd]. split.
+  - rewrite bit_is_set_testbit, Hs1, dense_bits_contains_testbit. reflexivity.
+  - intro k'. rewrite !dense_bits_contains_testbit. rewrite nth_N_replace.
+    destruct (N.ltb_spec w (len_N s1)) as [_|H]; [|lia]. rewrite andb_true_r.
+    rewrite <- (word_bit_split k k'). fold w b.
+    destruct (N.eqb_spec w (k' / word_bits)) as [E|E].
+    + rewrite N.lor_spec, one_shl_testbit, Hs1, <- E. cbn [andb]. apply orb_comm.
+    + cbn [andb orb]. rewrite Hs1. reflexivity.
+Qed.
+
+Lemma dense_bits_remove_spec : forall s k,
+  snd (dense_bits_remove s k) = dense_bits_contains s k /\
+  forall k', dense_bits_contains (fst (dense_bits_remove s k)) k' = negb (k =? k') && dense_bits_contains s k'.
+Proof.
+  intros s k. unfold dense_bits_remove, index_to_word_and_bit.
+  set (w := k / word_bits). set (b := k mod word_bits).
+  destruct (N.leb_spec (len_N s) w) as [H|H]; cbn [fst snd].
+  - assert (dense_bits_contains s k = false) as Hk.
+    { rewrite dense_bits_contains_testbit. fold w. rewrite nth_N_beyond by exact H. apply N.bits_0. }
+    split; [symmetry; exact Hk|]. intro k'. destruct (N.eqb_spec k k') as [E|E]; [subst k'; rewrite Hk; reflexivity|reflexivity].
+  - split; [rewrite bit_is_set_testbit, dense_bits_contains_testbit; reflexivity|].
+    intro k'. rewrite !dense_bits_contains_testbit. rewrite nth_N_replace.
+    destruct (N.ltb_spec w (len_N s)) as [_|H']; [|lia]. rewrite andb_true_r.
+    rewrite <- (word_bit_split k k'). fold w b.
+    destruct (N.eqb_spec w (k' / word_bits)) as [E|E].
+    + rewrite N.land_spec, not_one_shl_testbit by apply mod_word_lt. rewrite <- E. cbn [andb]. apply andb_comm.
+    + cbn [andb negb]. reflexivity.
+Qed.
+
+(** the words stay 64-bit words *)
+Definition words_ok (s : dense_bits) : Prop := Forall (fun w => w < 2 ^ word_bits) s.
+
+Theorem dense_set_refines :
+  fs_eq (dense_bits_abs dense_bits_empty) fs_empty /\
+  (forall s k, snd (dense_bits_insert s k) = negb (dense_bits_abs s k) /\
+               fs_eq (dense_bits_abs (fst (dense_bits_insert s k))) (fs_add (dense_bits_abs s) k)) /\
+  (forall s k, snd (dense_bits_remove s k) = dense_bits_abs s k /\
+               fs_eq (dense_bits_abs (fst (dense_bits_remove s k))) (fs_del (dense_bits_abs s) k)).
+Proof.
+  split; [exact dense_bits_contains_empty|]. split.
+  - intros s k. destruct (dense_bits_insert_spec s k) as [H1 H2]. split; [exact H1|exact H2].
+  - intros s k. destruct (dense_bits_remove_spec s k) as [H1 H2]. split; [exact H1|exact H2].
+Qed.
+
+(** ** SparseExprSet refines [fset] *)
+Definition sparse_bits_abs (s : sparse_bits) : fset := fun k => sparse_bits_contains s k.
+
+Lemma mem_N_In : forall s v, mem_N s v = true <-> In v s.
+Proof.
+  intros s v. induction s as [|x r IH]; cbn [mem_N In]; [split; [discriminate|tauto]|].
+  destruct (N.eqb_spec x v) as [E|E]; [tauto|]. rewrite IH. tauto.
+Qed.
+
+Lemma mem_N_app : forall s1 s2 v, mem_N (s1 ++ s2) v = mem_N s1 v || mem_N s2 v.
+Proof.
+  intros s1 s2 v. induction s1 as [|x r IH]; cbn [app mem_N orb]; [reflexivity|].
+  destruct (x =? v); [reflexivity|exact IH].
+Qed.
+
+Lemma mem_N_filter : forall s k v, mem_N (filter (fun x => negb (x =? k)) s) v = negb (k =? v) && mem_N s v.
+Proof.
+  intros s k v. induction s as [|x r IH]; cbn [filter mem_N]; [rewrite andb_false_r; reflexivity|].
+  destruct (N.eqb_spec x k) as [E|E]; cbn [negb].
+  - subst x. rewrite IH. destruct (N.eqb_spec k v); reflexivity.
+  - cbn [mem_N]. destruct (N.eqb_spec x v) as [E'|E'].
+    + subst x. destruct (N.eqb_spec k v); [lia|reflexivity].
+    + exact IH.
+Qed.
+
+Theorem sparse_set_refines :
+  (NoDup sparse_bits_empty /\ fs_eq (sparse_bits_abs sparse_bits_empty) fs_empty) /\
+  (forall s k, NoDup s ->
+      NoDup (fst (sparse_bits_insert s k)) /\
+      snd (sparse_bits_insert s k) = negb (sparse_bits_abs s k) /\
+      fs_eq (sparse_bits_abs (fst (sparse_bits_insert s k))) (fs_add (sparse_bits_abs s) k)) /\
+  (forall s k, NoDup s ->
+      NoDup (fst (sparse_bits_remove s k)) /\
+      snd (sparse_bits_remove s k) = sparse_bits_abs s k /\
+      fs_eq (sparse_bits_abs (fst (sparse_bits_remove s k))) (fs_del (sparse_bits_abs s) k)).
+Proof.
+  split; [split; [constructor|intro k; reflexivity]|]. split.
+  - intros s k Hnd. unfold sparse_bits_insert, sparse_bits_abs, sparse_bits_contains, fs_add.
+    destruct (mem_N s k) eqn:M; cbn [fst snd].
+    + split; [exact Hnd|]. split; [reflexivity|]. intro k'. destruct (N.eqb_spec k k') as [E|E]; [subst; rewrite M; reflexivity|reflexivity].
+    + split.
+      * assert (~ In k s) as Hni by (rewrite <- mem_N_In, M; discriminate).
+        clear M. induction s as [|x r IH]; cbn [app]; [constructor; [intros []|constructor]|].
+        inversion Hnd as [|x' r' Hx Hr]; subst. constructor.
+        -- rewrite in_app_iff. cbn [In]. intros [H|[H|[]]]; [contradiction|]. apply Hni. left. symmetry. exact H.
+        -- apply IH; [exact Hr|]. intro H. apply Hni. right. exact H.
+      * split; [reflexivity|]. intro k'. rewrite mem_N_app. cbn [mem_N]. rewrite orb_comm. destruct (k =? k'); reflexivity.
+  - intros s k Hnd. unfold sparse_bits_remove, sparse_bits_abs, sparse_bits_contains, fs_del.
+    destruct (mem_N s k) eqn:M; cbn [fst snd].
+    + split; [apply NoDup_filter; exact Hnd|]. split; [reflexivity|]. intro k'. apply mem_N_filter.
+    + split; [exact Hnd|]. split; [reflexivity|]. intro k'. destruct (N.eqb_spec k k') as [E|E]; [subst; rewrite M; reflexivity|reflexivity].
+Qed.
